@@ -256,7 +256,13 @@ int main(int argc, char **argv) {
         // configured only through RC_PARAMS (seed=, max_success=, max_size=)
         const auto byteGen = rc::gen::map(rc::gen::resize(100, rc::gen::inRange<int>(0, 256)),
                                           [](int v) { return static_cast<uint8_t>(v); });
-        const auto vecGen = rc::gen::container<std::vector<uint8_t>>(byteGen);
+        // Length policy: every third size step uses rapidcheck's growing size (small cases first), the others draw
+        // the length from the property's full range, so that most cases carry enough bytes for a whole decoded case
+        // instead of running into the zero tail of an exhausted input.
+        const int full = (int)verif_info.max_len;
+        const auto vecGen = rc::gen::withSize([=](int size) {
+            return rc::gen::resize((size % 3 == 0) ? size : full, rc::gen::container<std::vector<uint8_t>>(byteGen));
+        });
         bool ok = rc::check(std::string("property ") + verif_info.id, [&]() {
             const std::vector<uint8_t> bytes = *vecGen;
             // exact-size copy on the heap: the case function never sees slack behind its input
